@@ -117,11 +117,18 @@ func Run(tier, replay string) {
 		mbt.Infra("%d of %d faulted sources are accepted by LLVM: the fault generator is off", discarded, len(vs))
 	}
 	if tier == "thorough" {
-		// faults crossed with permutations of the source order: the processing order differs, the verdict must not
-		// (the model proves this for every order; here the real map orders are sampled by repetition)
-		for round := 0; round < 20; round++ {
-			cs := trcheck.Run(vs)
-			judge(rep, cs, true)
+		// faults crossed with permutations of the source order: the model proves the verdict for every
+		// processing order of every permuted source; each permuted faulted source is replayed, and the
+		// real map orders are sampled by repetition
+		pvs := trcheck.Generate(rep, "faultperms", 4)
+		pcs := trcheck.Run(pvs)
+		f3, d3 := judge(rep, pcs, true)
+		faults += f3
+		rep.TracesValidated = faults
+		rep.Extra["permuted_faulted_sources"] = len(pvs)
+		rep.Extra["permuted_discarded_not_a_fault_for_llvm"] = d3
+		for round := 0; round < 10; round++ {
+			judge(rep, trcheck.Run(vs), true)
 		}
 	}
 	viol := trcheck.AsImplementedViolations(rep, "all")
